@@ -31,11 +31,12 @@ if "--no-suite" not in sys.argv:
 sh("git checkout -- paramiko")
 notes = open(os.path.join(dst, "notes.md")).read() if os.path.exists(os.path.join(dst, "notes.md")) else ""
 meta["needs_to_manifest"] = notes[:1500]
+json.dump(meta, open(os.path.join(dst, "meta.json"), "w"), indent=1)
 t0 = time.time()
 p = subprocess.run(["/verif/check", "selftest-sensitivity", os.path.join(dst, "patch.diff")], cwd="/verif",
                    capture_output=True, text=True, timeout=3600)
 meta["our_check"] = {"cmd": "./check selftest-sensitivity seeded/%s/patch.diff" % name,
-                     "result": p.stdout.strip()[-600:], "seconds": round(time.time() - t0)}
+                     "result": (p.stdout.strip() or p.stderr.strip())[-600:], "seconds": round(time.time() - t0)}
 meta["confirmed"] = bool(meta["patch_applies"] and rc0 == 0 and rc1 != 0 and
                          ("passed" in meta.get("suite_mutated", "passed") and "failed" not in meta.get("suite_mutated", "")))
 json.dump(meta, open(os.path.join(dst, "meta.json"), "w"), indent=1)
